@@ -139,7 +139,34 @@ class Connection:
         self.last_resolved = []
 
     # ---- jar protocol ----------------------------------------------------
+    # data-manager faults around loads (set to n > 0):
+    #   fail_setstate     the n-th following setstate() call raises DMBoom
+    #                     before it touches the object (what a data manager
+    #                     does for a read conflict, a lost storage, a closed
+    #                     connection)
+    #   sweep_at_setstate the n-th following setstate() call first
+    #                     deactivates every other cached object (a cache
+    #                     sweep while an operation is in progress: pinned
+    #                     and changed objects refuse, the rest become ghosts)
+    fail_setstate = 0
+    sweep_at_setstate = 0
+    loads_refused = 0
+    incall_sweeps = 0
+
     def setstate(self, obj):
+        if self.sweep_at_setstate:
+            self.sweep_at_setstate -= 1
+            if self.sweep_at_setstate == 0:
+                self.incall_sweeps += 1
+                for _oid, o in list(self.cache.items()):
+                    if o is not obj:
+                        o._p_deactivate()
+                del o
+        if self.fail_setstate:
+            self.fail_setstate -= 1
+            if self.fail_setstate == 0:
+                self.loads_refused += 1
+                raise DMBoom('load refused')
         oid = obj._p_oid
         tid, clsname, data = self.storage.current(oid)
         state = self._unpickle_state(data)
